@@ -60,7 +60,8 @@ Proof.
   - injection Hb as Ea0 Eb0 H1. subst a0 b0. cbn [sq_fuel length sq_root sq_find find bind] in Fd.
     replace (Z.eqb a b) with false in Fd by (symmetry; now apply Z.eqb_neq).
     destruct (contracted squash_self_loops g a b) as [h|] eqn:C; cbn [bind] in Fd; [|discriminate].
-    destruct (Hydrogens.fold_res (concat_attr a b) squash_concat_attrs h) as [g3|] eqn:Cf; cbn [bind] in Fd; [|discriminate].
+    destruct (Hydrogens.fold_res (concat_attr a b) squash_concat_attrs h) as [gc|] eqn:Cf; cbn [bind] in Fd; [|discriminate].
+    destruct (hcount_min a b gc) as [g3|] eqn:Hm; cbn [bind] in Fd; [|discriminate].
     pose proof (fold_nonbang l H1 _ _ Fd) as E. inversion E; subst g3 sq2.
     assert (exists au, nattrs g a = Some au) as [au Hu]
       by (apply has_node_gfind in Ha as [n Hn]; unfold nattrs; rewrite Hn; cbn; eauto).
@@ -69,14 +70,52 @@ Proof.
     destruct (contracted_spec g a b au av W Hne Hu Hv) as (h' & Hc & K & E' & _ & _ & O).
     change squash_self_loops with false in C. rewrite C in Hc. inversion Hc; subst h'.
     destruct (concat_fold_shape _ _ _ _ _ Cf) as [K2 E2].
-    split; [congruence|]. split; [intros y x; rewrite E2; apply E'|].
-    intros y Ny Nyb. rewrite <- (O y Ny Nyb).
+    destruct (hcount_min_keeps _ _ _ _ Hm) as (K3 & E3 & O3 & _).
+    split; [congruence|]. split; [intros y x; rewrite E3, E2; apply E'|].
+    intros y Ny Nyb. rewrite (O3 y Ny). rewrite <- (O y Ny Nyb).
     (* the concatenations only touch node a *)
     clear - Cf Ny. revert h Cf. induction squash_concat_attrs as [|attr r IHr]; intros h Cf; cbn in Cf; [now inversion Cf|].
     destruct (concat_attr a b h attr) as [h1|] eqn:E1; cbn [bind] in Cf; [|discriminate].
     destruct (concat_attr_shape _ _ _ _ _ E1) as [val ->]. rewrite (IHr _ Cf).
     rewrite nattrs_set_node_attr. apply Z.eqb_neq in Ny. now rewrite Ny.
   - exact (IH Fd Hb).
+Qed.
+
+(** the single merge, as the step of the model *)
+Lemma squash_single_step g a b g' : bang_items g = [(a, b)] -> squash_atoms g = Ok g' ->
+  exists bond sq', starts_squash bond = Ok true /\ squash_step (g, []) (a, b, bond) = Ok (g', sq').
+Proof.
+  intros Hb H. unfold squash_atoms in H.
+  destruct (Hydrogens.fold_res squash_step (edge_attr_items g squash_edge_attr) (g, [])) as [[g2 sq2]|] eqn:Fd; cbn [bind fst] in H; [|discriminate].
+  inversion H; subst g2. clear H. unfold bang_items in Hb. fold (bangs (edge_attr_items g squash_edge_attr)) in Hb.
+  revert Fd Hb. generalize (edge_attr_items g squash_edge_attr). intros l.
+  induction l as [|[[a0 b0] bond] l IH]; intros Fd Hb; [discriminate|].
+  cbn [Hydrogens.fold_res] in Fd.
+  assert (Eb : bangs ((a0, b0, bond) :: l) =
+               match starts_squash bond with Ok true => (a0, b0) :: bangs l | _ => bangs l end).
+  { unfold bangs. cbn [filter]. unfold item_is_bang at 1. cbn [snd]. destruct (starts_squash bond) as [[|]|]; reflexivity. }
+  rewrite Eb in Hb.
+  destruct (starts_squash bond) as [[|]|] eqn:Es.
+  - injection Hb as Ea0 Eb0 H1. subst a0 b0.
+    destruct (squash_step (g, []) (a, b, bond)) as [[g3 sq3]|] eqn:St; cbn [bind] in Fd; [|discriminate].
+    pose proof (fold_nonbang l H1 _ _ Fd) as E. inversion E; subst g3 sq2. exists bond, sq3. auto.
+  - unfold squash_step at 1 in Fd. rewrite Es in Fd. cbn [bind negb] in Fd. exact (IH Fd Hb).
+  - unfold squash_step at 1 in Fd. rewrite Es in Fd. cbn [bind] in Fd. discriminate.
+Qed.
+
+(** … whose kept atom carries both memberships and the SMALLER hydrogen count of the two copies *)
+Lemma squash_single_kept g a b g' au av fu fv mu mv : wf_graph g -> a <> b -> bang_items g = [(a, b)] ->
+  squash_atoms g = Ok g' -> nattrs g a = Some au -> nattrs g b = Some av ->
+  aget (S "fragid") au = Some (VList fu) -> aget (S "fragid") av = Some (VList fv) ->
+  aget (S "mapping") au = Some (VList mu) -> aget (S "mapping") av = Some (VList mv) -> hnum au -> hnum av ->
+  exists A, nattrs g' a = Some A /\ aget (S "fragid") A = Some (VList (fu ++ fv)) /\
+            aget (S "mapping") A = Some (VList (mu ++ mv)) /\ aget squash_min_attr A = hcount_merged au av.
+Proof.
+  intros W Hne Hb H Hu Hv Fu Fv Mu Mv Nu Nv.
+  destruct (squash_single_step g a b g' Hb H) as (bond & sq' & Es & St).
+  destruct (squash_membership g a b au av fu fv mu mv W Hne Hu Hv Fu Fv Mu Mv Nu Nv [] a b bond Es eq_refl eq_refl)
+    as (g2 & St2 & _ & _ & (A & NA & FA & MA & _ & HA & _) & _).
+  rewrite St in St2. inversion St2; subst g2. exists A. auto.
 Qed.
 
 Lemma has_node_filter g g' b : node_keys g' = filter (fun k => negb (Z.eqb k b)) (node_keys g) ->
@@ -96,9 +135,22 @@ Theorem share_vs_cut_one gd gs u v v' a b g' : wf_graph gd -> wf_graph gs -> sha
   (forall y x, has_node g' y = true -> has_node g' x = true -> phi v v' y = phi v v' x -> y = x) /\
   (forall y x, has_node g' y = true -> has_node g' x = true ->
      has_edge g' y x = has_edge gd (phi v v' y) (phi v v' x)) /\
-  (forall y, y <> v -> y <> v' -> nattrs g' y = nattrs gs y).
+  (forall y, y <> v -> y <> v' -> nattrs g' y = nattrs gs y) /\
+  (* the kept copy belongs to both coarse nodes and carries the smaller hydrogen count of the two copies *)
+  (forall au av fu fv mu mv, nattrs gs a = Some au -> nattrs gs b = Some av ->
+     aget (S "fragid") au = Some (VList fu) -> aget (S "fragid") av = Some (VList fv) ->
+     aget (S "mapping") au = Some (VList mu) -> aget (S "mapping") av = Some (VList mv) -> hnum au -> hnum av ->
+     exists A, nattrs g' a = Some A /\ aget (S "fragid") A = Some (VList (fu ++ fv)) /\
+               aget (S "mapping") A = Some (VList (mu ++ mv)) /\ aget squash_min_attr A = hcount_merged au av).
 Proof.
   intros Wd Ws [Hnew Hu Hv Hne Hcut Hkeys Hedges] Hb Or H.
+  assert (Kept : forall au av fu fv mu mv, nattrs gs a = Some au -> nattrs gs b = Some av ->
+     aget (S "fragid") au = Some (VList fu) -> aget (S "fragid") av = Some (VList fv) ->
+     aget (S "mapping") au = Some (VList mu) -> aget (S "mapping") av = Some (VList mv) -> hnum au -> hnum av ->
+     exists A, nattrs g' a = Some A /\ aget (S "fragid") A = Some (VList (fu ++ fv)) /\
+               aget (S "mapping") A = Some (VList (mu ++ mv)) /\ aget squash_min_attr A = hcount_merged au av).
+  { intros au av fu fv mu mv. apply squash_single_kept; try assumption.
+    destruct Or as [[-> ->]|[-> ->]]; intro X; subst; congruence. }
   assert (Nvu : v' <> u) by (intro X; subst; congruence).
   assert (Nvv : v' <> v) by (intro X; subst; congruence).
   assert (Hab : a <> b) by (destruct Or as [[-> ->]|[-> ->]]; congruence).
@@ -129,6 +181,7 @@ Proof.
              end; subst; cbn [andb orb negb];
         rewrite ?Lv, ?Hcut, ?Hcut', ?orb_false_r, ?andb_false_r, ?orb_true_r; try reflexivity; try congruence; auto.
     + intros y Ny Ny'. apply O; assumption.
+    + exact Kept.
   - (* the original v is kept, the copy v' is removed *)
     repeat split.
     + intros y Hy. apply HN in Hy as [Hy Nyv]. destruct (Z.eqb_spec y v'); [contradiction|auto].
@@ -144,6 +197,7 @@ Proof.
              end; subst; cbn [andb orb negb];
         rewrite ?Lv, ?Hcut, ?Hcut', ?orb_false_r, ?andb_false_r, ?orb_true_r; try reflexivity; try congruence; auto.
     + intros y Ny Ny'. apply O; assumption.
+    + exact Kept.
 Qed.
 
 Lemma has_node_zmem g k : has_node g k = zmem k (node_keys g).
